@@ -214,7 +214,7 @@ fn primitives(env: &Env, k: u64, d: &mut Delta) {
 }
 
 fn run(env: &Env, k: u64, d: &mut Delta) {
-    if k % 4 == 1 {
+    if k % 5 == 1 {
         primitives(env, k, d);
     } else {
         metamorphic(env, k, d);
